@@ -1023,9 +1023,23 @@ func c18Child(c *rt.Ctx, dir string) {
 						if n < 0 {
 							continue
 						}
-						for variant := 0; variant < 4; variant++ {
+						for variant := 0; variant < 8; variant++ {
 							var a string
+							frame := func(head, tail string) string { // head + invalid UTF-8 (each byte decodes to three) + tail, n bytes in all
+								if k := n - len(head) - len(tail); k >= 0 {
+									return head + strings.Repeat("\xff", k) + tail
+								}
+								return ""
+							}
 							switch variant {
+							case 4:
+								a = frame(`{"unit":"`, `","value":1}`)
+							case 5:
+								a = frame(`{"value":"`, `","unit":"B"}`)
+							case 6:
+								a = frame(`"`, `"`)
+							case 7:
+								a = frame(`{"`, `":1,"value":1,"unit":"B"}`)
 							case 0:
 								a = c18Shaped(pkg, n)
 							case 1:
